@@ -1,0 +1,301 @@
+//! Verification hooks, compiled only with the cargo feature `verif-hooks`.
+//!
+//! Nothing in here is part of the GGRS API. The module puts every source of
+//! nondeterminism the sessions touch behind a seam that a deterministic simulator
+//! controls: the monotonic clock, the wall clock, the random numbers of the
+//! handshake, the iteration order of hash maps and the `yield` of the lockstep
+//! wait loop. All state is thread-local, so several simulations can run in one
+//! process on different threads without sharing anything.
+#![allow(missing_docs)]
+
+use std::cell::{Cell, RefCell};
+use std::hash::{BuildHasher, Hash, Hasher};
+use std::ops::{Add, Deref, DerefMut};
+use std::time::Duration;
+
+thread_local! {
+    static NOW_US: Cell<u64> = const { Cell::new(0) };
+    static BUMP_US: Cell<u64> = const { Cell::new(0) };
+    static CLOCK_READS: Cell<u64> = const { Cell::new(0) };
+    static WALL_OFFSET_MS: Cell<u128> = const { Cell::new(1_700_000_000_000) };
+    static HASH_SEED: Cell<u64> = const { Cell::new(0) };
+    static HASH_PER_MAP: Cell<bool> = const { Cell::new(false) };
+    static HASH_MAPS: Cell<u64> = const { Cell::new(0) };
+    static RNG: Cell<u64> = const { Cell::new(0x9E37_79B9_7F4A_7C15) };
+    static ON_YIELD: RefCell<Option<Box<dyn FnMut()>>> = const { RefCell::new(None) };
+}
+
+// ---------------------------------------------------------------- clock (H1)
+
+/// Sets the virtual monotonic clock of this thread (microseconds since simulation start).
+pub fn set_now_micros(us: u64) {
+    NOW_US.with(|c| c.set(us));
+}
+/// Reads the virtual monotonic clock of this thread without side effects.
+pub fn now_micros() -> u64 {
+    NOW_US.with(|c| c.get())
+}
+/// Every `Instant::now()` advances the virtual clock by this many microseconds afterwards
+/// (0 = a call is instantaneous). Lets a simulator check that nothing relies on two reads
+/// within one call being equal.
+pub fn set_clock_bump_micros(us: u64) {
+    BUMP_US.with(|c| c.set(us));
+}
+/// Number of clock reads since the thread started (reach probe).
+pub fn clock_reads() -> u64 {
+    CLOCK_READS.with(|c| c.get())
+}
+/// Offset added to the virtual clock to form this node's wall clock (milliseconds since the epoch).
+pub fn set_wall_offset_ms(ms: u128) {
+    WALL_OFFSET_MS.with(|c| c.set(ms));
+}
+pub(crate) fn millis_since_epoch() -> u128 {
+    WALL_OFFSET_MS.with(|c| c.get()) + u128::from(now_micros() / 1000)
+}
+
+/// Drop-in for `instant::Instant` reading the virtual clock.
+#[derive(Copy, Clone, Debug, PartialEq, Eq, PartialOrd, Ord)]
+pub struct Instant(Duration);
+impl Instant {
+    pub fn now() -> Self {
+        CLOCK_READS.with(|c| c.set(c.get() + 1));
+        let now = now_micros();
+        let bump = BUMP_US.with(|c| c.get());
+        if bump != 0 {
+            set_now_micros(now + bump);
+        }
+        Instant(Duration::from_micros(now))
+    }
+}
+impl Add<Duration> for Instant {
+    type Output = Instant;
+    fn add(self, rhs: Duration) -> Instant {
+        Instant(self.0 + rhs)
+    }
+}
+
+/// Installs the callback run by the lockstep wait loop instead of spinning on a frozen clock.
+pub fn set_on_yield(f: Option<Box<dyn FnMut()>>) {
+    ON_YIELD.with(|c| *c.borrow_mut() = f);
+}
+pub(crate) fn on_yield() {
+    let f = ON_YIELD.with(|c| c.borrow_mut().take());
+    if let Some(mut f) = f {
+        f();
+        ON_YIELD.with(|c| {
+            let mut slot = c.borrow_mut();
+            if slot.is_none() {
+                *slot = Some(f);
+            }
+        });
+    }
+}
+
+// ----------------------------------------------------------- randomness (H2)
+
+fn mix(mut z: u64) -> u64 {
+    z = z.wrapping_add(0x9E37_79B9_7F4A_7C15);
+    z = (z ^ (z >> 30)).wrapping_mul(0xBF58_476D_1CE4_E5B9);
+    z = (z ^ (z >> 27)).wrapping_mul(0x94D0_49BB_1331_11EB);
+    z ^ (z >> 31)
+}
+fn next_u64() -> u64 {
+    RNG.with(|c| {
+        let s = c.get().wrapping_add(0x9E37_79B9_7F4A_7C15);
+        c.set(s);
+        mix(s)
+    })
+}
+/// Sets the state of this thread's random stream (used for endpoint magics and handshake nonces).
+pub fn set_rng_state(seed: u64) {
+    RNG.with(|c| c.set(seed));
+}
+/// Current state of this thread's random stream, so a simulator can keep one stream per node.
+pub fn rng_state() -> u64 {
+    RNG.with(|c| c.get())
+}
+
+/// Shadows the `rand` crate inside `protocol.rs` when the feature is on, so the existing
+/// `rand::random::<u16>()` call sites read the seeded stream without being rewritten.
+pub(crate) mod rand {
+    pub(crate) trait FromStream {
+        fn from_stream(v: u64) -> Self;
+    }
+    impl FromStream for u16 {
+        fn from_stream(v: u64) -> Self {
+            v as u16
+        }
+    }
+    impl FromStream for u32 {
+        fn from_stream(v: u64) -> Self {
+            v as u32
+        }
+    }
+    pub(crate) fn random<T: FromStream>() -> T {
+        T::from_stream(super::next_u64())
+    }
+}
+
+// -------------------------------------------------------------- hashing (H3)
+
+/// Sets the key of every hash map created on this thread from now on.
+pub fn set_hash_seed(seed: u64) {
+    HASH_SEED.with(|c| c.set(seed));
+    HASH_MAPS.with(|c| c.set(0));
+}
+/// With `true`, every map created on this thread gets its own key derived from the seed and a
+/// per-thread creation counter (like `RandomState`, but reproducible).
+pub fn set_hash_per_map(on: bool) {
+    HASH_PER_MAP.with(|c| c.set(on));
+}
+
+#[derive(Clone, Copy)]
+pub struct SeededState(u64);
+impl Default for SeededState {
+    fn default() -> Self {
+        let seed = HASH_SEED.with(|c| c.get());
+        if HASH_PER_MAP.with(|c| c.get()) {
+            let n = HASH_MAPS.with(|c| {
+                let n = c.get();
+                c.set(n + 1);
+                n
+            });
+            SeededState(mix(seed ^ mix(n)))
+        } else {
+            SeededState(seed)
+        }
+    }
+}
+pub struct SeededHasher(u64);
+impl Hasher for SeededHasher {
+    fn finish(&self) -> u64 {
+        mix(self.0)
+    }
+    fn write(&mut self, bytes: &[u8]) {
+        for b in bytes {
+            self.0 = mix(self.0 ^ u64::from(*b));
+        }
+    }
+}
+impl BuildHasher for SeededState {
+    type Hasher = SeededHasher;
+    fn build_hasher(&self) -> SeededHasher {
+        SeededHasher(self.0)
+    }
+}
+
+type StdMap<K, V> = std::collections::HashMap<K, V, SeededState>;
+type StdSet<K> = std::collections::HashSet<K, SeededState>;
+
+/// `std::collections::HashMap` with a hasher keyed by [`set_hash_seed`].
+#[derive(Clone)]
+pub struct HashMap<K, V>(StdMap<K, V>);
+impl<K, V> HashMap<K, V> {
+    pub fn new() -> Self {
+        HashMap(StdMap::default())
+    }
+}
+impl<K: Eq + Hash, V> HashMap<K, V> {
+    /// Inherent so that two-phase borrows keep working (`m.insert(k, self.f())`).
+    pub fn insert(&mut self, k: K, v: V) -> Option<V> {
+        self.0.insert(k, v)
+    }
+}
+impl<K, V> Default for HashMap<K, V> {
+    fn default() -> Self {
+        Self::new()
+    }
+}
+impl<K, V> Deref for HashMap<K, V> {
+    type Target = StdMap<K, V>;
+    fn deref(&self) -> &Self::Target {
+        &self.0
+    }
+}
+impl<K, V> DerefMut for HashMap<K, V> {
+    fn deref_mut(&mut self) -> &mut Self::Target {
+        &mut self.0
+    }
+}
+impl<K: std::fmt::Debug, V: std::fmt::Debug> std::fmt::Debug for HashMap<K, V> {
+    fn fmt(&self, f: &mut std::fmt::Formatter<'_>) -> std::fmt::Result {
+        self.0.fmt(f)
+    }
+}
+impl<'a, K, V> IntoIterator for &'a HashMap<K, V> {
+    type Item = (&'a K, &'a V);
+    type IntoIter = std::collections::hash_map::Iter<'a, K, V>;
+    fn into_iter(self) -> Self::IntoIter {
+        self.0.iter()
+    }
+}
+impl<K, V> IntoIterator for HashMap<K, V> {
+    type Item = (K, V);
+    type IntoIter = std::collections::hash_map::IntoIter<K, V>;
+    fn into_iter(self) -> Self::IntoIter {
+        self.0.into_iter()
+    }
+}
+
+/// `std::collections::HashSet` with a hasher keyed by [`set_hash_seed`].
+#[derive(Clone)]
+pub struct HashSet<K>(StdSet<K>);
+impl<K> HashSet<K> {
+    pub fn new() -> Self {
+        HashSet(StdSet::default())
+    }
+}
+impl<K> Default for HashSet<K> {
+    fn default() -> Self {
+        Self::new()
+    }
+}
+impl<K> Deref for HashSet<K> {
+    type Target = StdSet<K>;
+    fn deref(&self) -> &Self::Target {
+        &self.0
+    }
+}
+impl<K> DerefMut for HashSet<K> {
+    fn deref_mut(&mut self) -> &mut Self::Target {
+        &mut self.0
+    }
+}
+
+// ------------------------------------------------------------ accessors (H4)
+
+/// Sizes of the buffers one endpoint keeps.
+#[derive(Debug, Clone, Copy, Default, PartialEq, Eq)]
+pub struct EndpointSizes {
+    pub pending_output: usize,
+    pub recv_inputs: usize,
+    pub pending_checksums: usize,
+    pub send_queue: usize,
+    pub event_queue: usize,
+    pub sync_random_requests: usize,
+    /// 0 initializing, 1 synchronizing, 2 running, 3 disconnected, 4 shutdown
+    pub state: u8,
+}
+
+/// Sizes of the buffers a session keeps (read-only snapshot).
+#[derive(Debug, Clone, Default, PartialEq, Eq)]
+pub struct BufferSizes {
+    pub event_queue: usize,
+    pub pending_local_inputs: usize,
+    pub outgoing_local_input_frames: usize,
+    pub outgoing_local_input_entries: usize,
+    pub local_checksum_history: usize,
+    /// One entry per remote or spectator endpoint, sorted by the smallest player handle it serves.
+    pub endpoints: Vec<(usize, EndpointSizes)>,
+}
+
+// ---------------------------------------------------------------- codec (H5)
+
+/// The input codec's encoder, exported for payload sweeps.
+pub fn encode(reference: &[u8], inputs: &[Vec<u8>]) -> Vec<u8> {
+    crate::network::compression::encode(reference, inputs.iter())
+}
+/// The input codec's decoder, exported for payload sweeps.
+pub fn decode(reference: &[u8], data: &[u8]) -> Result<Vec<Vec<u8>>, String> {
+    crate::network::compression::decode(reference, data).map_err(|e| e.to_string())
+}
